@@ -57,6 +57,8 @@ pub struct IntRec {
     pub modified: bool,
     /// `energy` is exact (no traversal-dependent charge before)
     pub exact: bool,
+    /// index of the host call (in the meter's records) that raised the interrupt
+    pub rec_idx: usize,
 }
 
 pub struct ModelV1 {
@@ -207,7 +209,7 @@ impl ModelV1 {
     fn respond(&mut self, int: IntM, energy: &mut u64) -> Result<Option<V>, Trap> {
         let k = self.interrupts.len();
         let logs = if int.clears_logs() { std::mem::take(&mut self.sh.logs) } else { vec![] };
-        self.interrupts.push(IntRec { int, energy: *energy, logs, changed_called: self.changed_called, modified: self.modified, exact: !self.meter.inexact });
+        self.interrupts.push(IntRec { int, energy: *energy, logs, changed_called: self.changed_called, modified: self.modified, exact: !self.meter.inexact, rec_idx: self.meter.recs.len().saturating_sub(1) });
         let resp = if self.responses.is_empty() { Resp { kind: RespKind::Success { new_balance: self.sh.balance, data: None }, state_updated: false, reentrant: vec![], rolled_back: false, energy_used: 0 } } else { self.responses[k % self.responses.len()].clone() };
         if energy.saturating_add(resp.energy_used) > self.meter.budget {
             return Err(Trap::OutOfEnergy);
